@@ -462,7 +462,7 @@ class C16(Monitor):
                              archived=bool(tr.pre.archived)),
                         'safe decorator raised %r for argument of kind %s (keymap %s)' % (tr.exc, vk, km)))
             return out
-        want = ('u', type(tr.extra['value']).__name__)
+        want = ('u', type(tr.extra['value']).__name__, 0)
         if tr.ret != want:
             out.append((_sig(cfg, 'C16', 'safe-call-wrong-result', value=vk, keymap=km),
                         'call with %s argument returned %r, function returns %r' % (vk, tr.ret, want)))
@@ -474,7 +474,7 @@ class C16(Monitor):
             if d != (0, 1, 0):
                 out.append((_sig(cfg, 'C16', 'safe-fallback-not-a-miss', value=vk, keymap=km),
                             'un-keyable argument changed (hit,miss,load) by %r, expected (0,1,0)' % (d,)))
-            if snap_key(tr.pre) != snap_key(tr.post):
+            if snap_key(tr.pre)[:-1] != snap_key(tr.post)[:-1]:          # (everything but the statistics' zero pattern)
                 out.append((_sig(cfg, 'C16', 'safe-fallback-changes-state', value=vk, keymap=km),
                             'un-keyable argument changed cache / archive / bookkeeping'))
         return out
